@@ -353,7 +353,21 @@ func (d *Data) SplitCoarseLabels(v dvid.VersionID, fromLabel, splitLabel uint64,
 	if err != nil {
 		return
 	}
-	numBlocks, _ := splits.Stats()
+	// The blocks of the split must be blocks of the label: check the runs against that number
+	// before anything is sized by what the client declares.
+	var meta *Meta
+	if meta, err = GetLabelIndex(d, v, fromLabel); err != nil {
+		return
+	}
+	if meta == nil {
+		err = fmt.Errorf("label %d to be split does not exist", fromLabel)
+		return
+	}
+	var numBlocks uint64
+	if numBlocks, err = splits.NumCoarseBlocks(uint64(len(meta.Blocks))); err != nil {
+		err = fmt.Errorf("bad coarse split of label %d: %v", fromLabel, err)
+		return
+	}
 
 	// Only do one request at a time, although each request can start many goroutines.
 	server.LargeMutationMutex.Lock()
